@@ -15,9 +15,9 @@
 # limitations under the License.
 
 import contextlib
-import copy
 import marshal
 import math
+import pickle
 import types
 
 import numpy as np
@@ -406,48 +406,34 @@ class CachedFcn(UserFcn):
     """
 
     @staticmethod
-    def _same(x, y):
-        """True if an argument has the same type and equal content as the remembered copy of an earlier one.
+    def _key(args, kwds):
+        """Byte string describing the arguments of a call exactly, or None if they cannot be described.
 
-        Records (dicts, objects), sequences, arrays and data frames are compared structurally, so that a one-row batch
-        is not mistaken for the row it contains and a record or buffer that was overwritten in place is not mistaken
-        for its earlier content; anything that cannot be compared counts as a new argument.
+        The pickled form tells apart everything a function can tell apart: values, types and dtypes (True, 1 and 1.0;
+        a row and a one-row batch), the sign of zero, labels and the order of keys; NaN is equal to itself. It is a
+        snapshot, so a record, array or frame that is overwritten in place and passed again is a new argument.
         """
-        if type(x) is not type(y):
-            return False
-        if isinstance(x, dict):
-            return x.keys() == y.keys() and all(CachedFcn._same(x[k], y[k]) for k in x)
-        if isinstance(x, (list, tuple)):
-            return len(x) == len(y) and all(CachedFcn._same(a, b) for a, b in zip(x, y))
         try:
-            if callable(getattr(x, "equals", None)):  # pandas objects: labels count as well
-                return bool(x.equals(y))
-            if type(x).__eq__ is object.__eq__ and hasattr(x, "__dict__"):  # plain attribute records
-                return CachedFcn._same(vars(x), vars(y))
-            return bool(np.array_equal(x, y))
+            return pickle.dumps((args, sorted(kwds.items())), protocol=pickle.HIGHEST_PROTOCOL)
         except Exception:
-            return False
+            return None
 
     def __call__(self, *args, **kwds):
-        if (
-            hasattr(self, "lastArgs")
-            and len(args) == len(self.lastArgs)
-            and all(self._same(x, y) for x, y in zip(args, self.lastArgs))
-            and set(kwds.keys()) == set(self.lastKwds.keys())
-            and all(self._same(kwds[k], self.lastKwds[k]) for k in kwds)
-        ):
-            return copy.deepcopy(self.lastReturn)
+        key = self._key(args, kwds)
+        if key is not None and key == getattr(self, "lastKey", None):
+            # a fresh copy: the caller may modify what it gets in place
+            return pickle.loads(self.lastReturn)
         # call first: if the function raises, the memo must keep describing the last *successful* call
         result = super().__call__(*args, **kwds)
-        try:
-            # remember copies: the caller (and fill.numpy itself) may reuse a record or an array as a buffer, and the
-            # result may be a view of the argument
-            self.lastArgs = copy.deepcopy(args)
-            self.lastKwds = copy.deepcopy(kwds)
-            self.lastReturn = copy.deepcopy(result)
-        except Exception:
-            # arguments that cannot be copied cannot be remembered
-            self.__dict__.pop("lastArgs", None)
+        if key is not None:
+            try:
+                # the result may be a view of the argument: remember a snapshot of it as well
+                self.lastReturn = pickle.dumps(result, protocol=pickle.HIGHEST_PROTOCOL)
+                self.lastKey = key
+            except Exception:
+                self.lastKey = None
+        else:
+            self.lastKey = None
         return result
 
     def __repr__(self):
